@@ -1,7 +1,7 @@
 """C17 — the server enforces its connection limits."""
 import hc_streams
 from props import _hc
-from hc_oracles import limits_oracle, ep_crash_oracle
+from hc_oracles import pending_budget_oracle, limits_oracle, ep_crash_oracle
 
 PROP = "C17"
 COQ_FILE = "props/C17.v"
@@ -22,4 +22,4 @@ def streams(seed, tier):
 
 
 def oracle(name, ops, out):
-    return _hc.run_oracles({"*": [ep_crash_oracle, limits_oracle]}, name, ops, out)
+    return _hc.run_oracles({"*": [ep_crash_oracle, limits_oracle, pending_budget_oracle]}, name, ops, out)
